@@ -1,16 +1,30 @@
 # check configuration for C12 (loaded by bin/vconfig.py)
 CHECK = {'level': 'exploration',
  'rule': 'rapidcheck generates a well-formed host document (abstract cm::Doc: blocks, frames, scalars, loops, nested lists/tables; CIF 2.0, CIF 1.1 for the 1.1 row), a '
-         'hand-rolled renderer turns it into a token list whose line numbers are known, and one row of the planting table (one per defect class of the statement) '
-         'plants exactly one defect at a generated position; non-trivial = the defect sits in a loop header/body, a list/table, a save frame, or at a middle/last '
-         'item; distinct = hash of the document bytes',
- 'assumptions': [],
+         'hand-rolled renderer turns it into a token list (joined by newlines, blanks, tabs, empty lines, comments) whose line numbers are known from the bytes, and one '
+         'row of the planting table (35 rows covering every defect class of the statement) plants exactly one defect at a generated position; non-trivial = the defect '
+         'sits in a loop header/body, a list/table, a save frame, or at a middle/last item; distinct = hash of the document bytes',
+ 'assumptions': ['line window = [line of the defect, last line of the token that follows it] (the line on which the input ends when nothing follows)',
+                 'CIF_EMPTY_LOOP: the packet-less loop may be absent or present without packets (table: "accept"; code comment: may be pruned)',
+                 'CIF_NULL_KEY: the key-less entry may be dropped or kept under some key (entries holding the marker value are removed before comparing)',
+                 'CIF_DISALLOWED_CHAR: whether the stored text / code keeps the character or a replacement is not constrained (that one value or code is masked)',
+                 'invalid block/frame code: the only lexable invalid codes are over-long ones (CIF_OVERLENGTH_LINE allowed as follow-up) and ones holding a disallowed '
+                 'character (CIF_DISALLOWED_CHAR or the invalid-code error may come first, both allowed, the invalid-code error is required)',
+                 'CIF_UNCLOSED_TEXT for a text field whose content ends with a line terminator right before the end of input: value with or without that terminator',
+                 'a defect may be reported more than once with the same code: "abc[" (bare word + bracket) gives CIF_MISSING_SPACE twice, U+0080 under CIF 1.1 gives '
+                 'CIF_DISALLOWED_CHAR twice (two rules); accepted',
+                 'frame-not-allowed: the negative control is parsed with the default max_frame_depth; the CIF 1.1 row is parsed with default_encoding_name=UTF-8 forced',
+                 'known findings excluded by construction: F-NULLKEY-SPACE (":v" -> spurious CIF_MISSING_SPACE after the accepted CIF_NULL_KEY), F-KEYCOL (column counter '
+                 'misses the colon of a table key: an over-long line holding a key is measured one short per key), F-LASTLINE-LEN (an unterminated over-long last line is '
+                 'never measured)',
+                 'one defect per document; LF line terminators only; loop packets compared as multisets'],
  'min_evaluations': 1500,
  'technique': 'property-based testing (rapidcheck): well-formed host x planting table (defect class x position); oracle from the recovery table: first code, line window, '
               'follow-up set, recovered dump, default-handler result, silent negative control',
  'level_text': 'Generated search over host documents x defect classes x positions under ASan/UBSan with allocation balance; every case also parses the un-planted host '
-               '(must be silent). One defect per document; LF line terminators only.',
+               '(must be silent) and re-parses the planted bytes with the default abort handler. Bounded document sizes (<= ~3 blocks, values <= ~10 characters, composites '
+               '<= depth 3).',
  'level_note': 'Trusted: my renderer and planters (their reading of the recovery table), dump()/model code, rapidcheck, sanitizers.',
  'engines': [{'src': 'pbt/C12_defects.cpp',
-              'quick': {'workers': 8, 'cases': 700, 'size': 100},
-              'thorough': {'workers': 16, 'cases': 25000, 'size': 120}}]}
+              'quick': {'workers': 8, 'cases': 450, 'size': 100},
+              'thorough': {'workers': 16, 'cases': 8000, 'size': 120}}]}
